@@ -198,7 +198,7 @@ def cross(f, Y0, m=None, e=None, nswp=None, tau=1.1, dr_min=1, dr_max=1,
 
         if cb:
             opts = {'Yold': Yold, 'Ir': Ir, 'Ic': Ic, 'cache': cache}
-            if cb(Y, info, opts) is True:
+            if cb(Y, info, opts):
                 info['stop'] = info['stop'] or 'cb'
 
         if teneva._info_appr(info, _time, nswp, e, e_vld, log):
